@@ -6,6 +6,7 @@ Model: `viewEquals` / `typeEquals` / `tryCopy` / `arenaCopy` in Emboss/Model/Vie
 `TryToCopyFrom` template and `ContiguousBuffer::TryToCopyFrom` = `memmove` on one address space).
 -/
 import Emboss.Lemmas.Equals
+import Emboss.Lemmas.Locality
 import Emboss.Properties.C01
 namespace Emboss.View
 
@@ -105,6 +106,34 @@ theorem C20_copy_overlap (arena : List Nat) (so d0 n : Nat)
       arena.take d0 ++ (arena.drop so).take n ++ arena.drop (d0 + n) ∧
     ((arenaCopy arena so d0 n).drop d0).take n = (arena.drop so).take n :=
   ⟨rfl, (C20_copy_post arena so d0 n hs hd).2.1⟩
+
+/-- After a successful copy the destination is `Ok()`: if the source view is Ok with size `sz`
+and the destination buffer afterwards starts with the source's first `sz` bytes (what
+`C20_copy_post` guarantees) then the destination view is Ok.  Uses locality
+(`C01_locality_partial`: the source restricted to its first `sz` bytes is still Ok) and prefix
+monotonicity of `Ok()` (`C01_ok_monotone_arrays_partial`); hypothesis `SizeCovers` as there.
+"… and Equals the source" is not proved (it additionally needs reflexivity of `Equals` on Ok
+views); the harness checks it by a follow-up `EQ` after every successful `CP`. -/
+theorem C20_copy_dest_ok_partial (m : Module) (hm : moduleWF m = true) (sd : StructDef)
+    (hsd : structWF m sd = true) (hcov : SizeCovers m sd) (ps : List Val) (src dst' : List Nat)
+    (K : Nat) (sz : Int)
+    (hsz : (G m (K + 1)).read (rootView sd ps src) [sd.sizeField] = some (.int sz))
+    (h0 : 0 ≤ sz) (hfit : sz ≤ src.length)
+    (hok : (G m (K + 2)).okAt (rootView sd ps src) [] = true)
+    (hcopy : dst'.take sz.toNat = src.take sz.toNat) :
+    (G m (K + 2)).okAt (rootView sd ps dst') [] = true := by
+  -- the size is also known one level up
+  have hsz' : (G m (K + 1 + 1)).read (rootView sd ps src) [sd.sizeField] = some (.int sz) :=
+    (G_fuel_mono hm (K + 1) _ _ (VLe.refl _) hsd).1 _ _ hsz
+  have hag := C01_locality_partial m hm sd hsd hcov ps src (K + 1) sz hsz' h0 hfit (K + 2) (Nat.le_refl _)
+  have h1 : (G m (K + 2)).okAt (rootView sd ps (src.take sz.toNat)) [] = true := by
+    rw [hag.okAt]; exact hok
+  have hle : VLe (rootView sd ps (src.take sz.toNat)) (rootView sd ps dst') := by
+    refine ⟨rfl, OLe.refl _, ?_⟩
+    simp only [rootView, StLe]
+    rw [← hcopy]
+    exact List.take_prefix _ _
+  exact G_ok_mono_arr hm (w1 := rootView sd ps (src.take sz.toNat)) hcov hle hsd (K + 2) h1
 
 /-! ### non-vacuity -/
 
